@@ -1422,6 +1422,27 @@ def _traversal_unpack(st: ast.For) -> ast.For | None:
     return ast.fix_missing_locations(new)
 
 
+def _leading_ifexp(e: ast.expr) -> ast.IfExp | None:
+    """The conditional expression that is evaluated first in ``e`` (receiver of the leading call / attribute chain), if any; a bare
+    conditional expression as the whole value is handled by the dedicated cases."""
+    cur: ast.expr = e
+    depth = 0
+    while True:
+        if isinstance(cur, ast.IfExp):
+            return cur if depth else None
+        if isinstance(cur, (ast.YieldFrom, ast.Await)) and cur.value is not None:
+            cur = cur.value
+        elif isinstance(cur, ast.Call):
+            cur = cur.func
+        elif isinstance(cur, ast.Attribute):
+            cur = cur.value
+        elif isinstance(cur, ast.Subscript):
+            cur = cur.value
+        else:
+            return None
+        depth += 1
+
+
 def _bool_typed(e: ast.expr) -> ast.expr | None:
     """If ``e`` always evaluates to True or False exactly as the truth value of some condition C, return C."""
     if isinstance(e, ast.Call) and isinstance(e.func, ast.Name) and e.func.id == "bool" and len(e.args) == 1 and not e.keywords:
@@ -1615,6 +1636,15 @@ def lower(fn: ast.FunctionDef, tuples: bool = True, ifexp: bool = True) -> ast.F
             elif tuples and isinstance(st, ast.For) and _traversal_unpack(st) is not None:
                 # for node, parent, field, index in x.dfs():  ->  for _ti in x.dfs(): (node -> _ti.node, ...)
                 new = [_traversal_unpack(st)]  # type: ignore[list-item]
+            elif ifexp and isinstance(st, (ast.Expr, ast.Return, ast.Assign)) and st.value is not None and _leading_ifexp(st.value) is not None:
+                # (A if c else B).m(x) as the first thing a statement evaluates: branch on c at statement level
+                ife = _leading_ifexp(st.value)
+
+                def mkl2(v: ast.expr) -> ast.stmt:
+                    c = copy.deepcopy(st)
+                    c.value = _replace_node(c.value, _leading_ifexp(c.value), v)  # type: ignore[arg-type]
+                    return c
+                new = [ast.copy_location(ast.If(test=ife.test, body=[mkl2(copy.deepcopy(ife.body))], orelse=[mkl2(copy.deepcopy(ife.orelse))]), st)]
             elif ifexp and isinstance(st, ast.For) and isinstance(st.iter, ast.IfExp):
                 # for x in (A if c else B): body [else: E]   ->   if c: for x in A: ... else: for x in B: ...   (c is evaluated once, first)
                 ife = st.iter
@@ -1797,6 +1827,8 @@ class _Canon(ast.NodeTransformer):
         lazy = _map_to_genexp(node)
         if lazy is not None:
             return ast.copy_location(lazy, node)
+        if isinstance(f, ast.Name) and f.id == "str" and len(node.args) == 1 and not node.keywords and isinstance(node.args[0], ast.Constant) and isinstance(node.args[0].value, str):
+            return node.args[0]  # str("text") is "text"
         if isinstance(f, ast.Name) and f.id == "getattr" and len(node.args) == 2 and not node.keywords and isinstance(node.args[1], ast.Constant) \
                 and isinstance(node.args[1].value, str) and node.args[1].value.isidentifier() and not node.args[1].value.startswith("__"):
             # getattr(x, "name") with a literal name is x.name
@@ -1857,6 +1889,27 @@ class _Canon(ast.NodeTransformer):
     visit_ListComp = _fuse
     visit_SetComp = _fuse
     visit_DictComp = _fuse
+
+    # ---- constants in and / or chains: `None or X` is X, `'' or X` is X, `1 and X` is X (a constant operand decides nothing at run time)
+    def visit_BoolOp(self, node: ast.BoolOp) -> ast.AST:
+        self.generic_visit(node)
+        vals = list(node.values)
+        is_or = isinstance(node.op, ast.Or)
+        out: list[ast.expr] = []
+        for k, v in enumerate(vals):
+            last = k == len(vals) - 1
+            if isinstance(v, ast.Constant) and not last:
+                truthy = bool(v.value)
+                if truthy == is_or:
+                    out.append(v)  # `X or 1 or Y`: evaluation stops here with this constant
+                    break
+                continue  # falsy constant in `or` / truthy constant in `and`: skipped
+            out.append(v)
+        if len(out) == 1:
+            return out[0]
+        if len(out) != len(vals):
+            return ast.copy_location(ast.BoolOp(op=node.op, values=out), node)
+        return node
 
     # ---- `A if A else B` is `A or B` (A pure: evaluated once or twice makes no difference)
     def visit_IfExp(self, node: ast.IfExp) -> ast.AST:
@@ -2224,6 +2277,7 @@ class _Strings(ast.NodeTransformer):
     visit_JoinedStr = _Canon.visit_JoinedStr
     visit_BinOp = _Canon.visit_BinOp
     visit_IfExp = _Canon.visit_IfExp
+    visit_BoolOp = _Canon.visit_BoolOp
     _fuse = _Canon._fuse
     visit_GeneratorExp = _Canon._fuse
     visit_ListComp = _Canon._fuse
